@@ -269,6 +269,21 @@ fn explore(ctx: &mut Ctx) {
         }
     }
     ctx.exhaustive_part("all strings up to 4-5 chars over {é,è,漢,😀,','} x 8 delimiters (incl. empty, 2-char, shared lead bytes)");
+    // encoding-length boundary scalars (first/last char of every UTF-8 length, both sides of the surrogate gap):
+    // the empty delimiter walks char by char, char delimiters are matched by their encoding
+    let bs: Vec<String> = gen::BOUNDARY_CHARS.iter().chain(['a', '\u{e000}', '\u{fff}', '\u{1000}'].iter()).map(|c| c.to_string()).collect();
+    let bsr: Vec<&str> = bs.iter().map(|x| x.as_str()).collect();
+    for s in gen::strings(&bsr, ctx.by_tier(3, 4)) {
+        eval(ctx, Case { s: s.clone(), delim: String::new(), as_char: false, hist: None });
+        for dl in ["a", "\u{800}", "\u{7ff}", "\u{ffff}", "\u{10000}"] {
+            eval(ctx, Case { s: s.clone(), delim: dl.into(), as_char: false, hist: None });
+            eval(ctx, Case { s: s.clone(), delim: dl.into(), as_char: true, hist: None });
+        }
+        if ctx.too_many() {
+            return;
+        }
+    }
+    ctx.exhaustive_part("all strings up to 3-4 chars over 13 encoding-boundary scalars (U+0000, 7F, 80, 7FF, 800, FFF, 1000, D7FF, E000, FFFF, 10000, 10FFFF, 'a') x {empty delimiter, 5 delimiters as &str and as char}");
     let n = ctx.by_tier(60_000, 1_500_000);
     let strat = (proptest::collection::vec(0usize..4, 0..40), proptest::collection::vec(0usize..4, 0..4), any::<bool>(), proptest::option::of(any::<u32>()));
     ctx.prop("split", n, strat, |ctx, v| {
